@@ -122,7 +122,9 @@ PLAN.update({
                      'ps_delay_quick', 'ps_listener_cb_quick'],
     },
     'C14': {
-        'inv': ['ConnAgree'],
+        # (the twins' equivalence is the differential of the two graphs; the
+        # configurations with raising handlers do not keep ConnAgree)
+        'inv': [],
         'also': ['C14c', 'C14p'],
         'quick': ['acks_quick', 'lifecycle_quick_ac'],
         'thorough': ['rooms_quick', 'acks_quick', 'lifecycle_quick_ac',
